@@ -109,7 +109,8 @@ def main():
                 continue
             det = ",".join(out["detected_by"])
             sigs = "; ".join(f"{c}:{[r['signature'] for r in v['replays']][:4]}" for c, v in out["results"].items() if v["replays"])
-            print(f"{sid} detected_by={det} {sigs}", flush=True)
+            exits = ",".join(f"{c}={v['exit']}/{v['wall_s']}s" for c, v in out["results"].items())
+            print(f"{sid} detected_by={det} [{exits}] {sigs}", flush=True)
 
 
 if __name__ == "__main__":
